@@ -419,6 +419,12 @@ func (s *ProofStructure) VerifyProofStructure(g *gabikeys.PublicKey, p *Proof) b
 			return false
 		}
 
+		// a commitment that is 0 modulo N (or not reduced) has no inverse: every reconstructed commitment
+		// would be 0 independent of the responses, and the proof would prove nothing
+		if p.Cs[i].Sign() <= 0 || p.Cs[i].Cmp(g.N) >= 0 {
+			return false
+		}
+
 		if p.Cs[i].BitLen() > g.N.BitLen() ||
 			uint(p.DResponses[i].BitLen()) > s.ld+g.Params.Lh+g.Params.Lstatzk+1 ||
 			uint(p.VResponses[i].BitLen()) > g.Params.Lm+g.Params.Lh+g.Params.Lstatzk+1 {
